@@ -60,7 +60,7 @@ contract(AI + '.get_bytes', name='abs:AssembledInstruction.get_bytes', props=['C
 I_ = "elems(self._instructions), fld('AssembledInstruction._byte_size')"
 I0 = "elems(instructions), fld('AssembledInstruction._byte_size')"
 
-contract(CAI + '.__init__', props=['C10', 'C02'],
+contract(CAI + '.__init__', props=['C10', 'C02', 'C04'],
          params={'instructions': 'list[AssembledInstruction]'},
          requires=['forall(lambda j: implies(0 <= j and j < len(instructions), elems(instructions)[j] is not self))'],
          ensures=['self._instructions is instructions',
